@@ -53,7 +53,23 @@ pass computing its sequential reference results *before* the concurrent rounds,
 which warmed the cache. The pass now starts with the widest fan-out on a cold
 process and computes the reference afterwards.
 
-After these changes all 68 are reported. The table is generated from the last
+Third round: 17 more (one per property; agents were asked for changes whose
+effect depends on scale or history: counters in narrow integer types, values
+above 16 or 32 bits, state kept between steps or across resets, very long
+lines and programs). Before and while they were being written the spaces were
+widened along the same lines (section 10); of the 17, 14 were reported at once
+and 3 needed further widening: operand pointers kept on the simulator between
+steps (C01: every step state is now followed by a second step on the same
+simulator, with neighbour cells that have immediate operands); folding by a
+fixed-point reciprocal, wrong only above 46508 cells (C11: the large-core space
+now also runs under C11, from the first cell too, with limits below the core
+size and pointers just under a multiple of the limit); an 8-bit reset epoch in
+the StateRecorder (C15: one simulator through 70000 battles separated by
+Reset). Two harness faults showed up on the way and were repaired: replays of
+large-core rotation witnesses and of second-step witnesses did not take the
+same path as the enumeration.
+
+After these changes all 85 are reported. The table is generated from the last
 run of every seed against the current machinery. (Two of the agents also
 pointed out defects of the unchanged tree while reading: D20 and D21 of
 section 11.)
